@@ -7,6 +7,7 @@ from engine import slicer
 from engine.core import Job, VERIF, extract_inputs
 from engine.routeb import gotocc_cpp, cbmc_argv, STD
 from engine.selftest import subst
+from props import planjobs
 
 ID = "C06"
 USES_CPP = True   # adds the front-end assumption canaries (engine/frontend.py) to every run of this check
@@ -287,6 +288,9 @@ def jobs(tier, mutant=None):
         js.append(Job("Pool.retrieve.K%d" % K, _build_pool(K, mutant), "bounded", timeout=3000, canaries=2 if K > 1 else 1,
                       bound="%d delayed edges, all priorities/ids/depth/use symbolic" % K,
                       functions=["Pool::DelayEdge", "Pool::RetrieveReadyEdges", "Pool::EdgeScheduled", "Pool::WeightedEdgeCmp"], weight=3.0 ** K))
+    # Plan side (modular, props/planunit.py): the pool operations are called in the right order, each command is scheduled at most once,
+    # slots/tokens are given back on success and failure, a startable wanted edge is scheduled at once
+    js += planjobs.select(tier, ["M1", "M3", "M4", "M8"], r'\bC06\b', mutant)
     return js
 
 
@@ -303,6 +307,10 @@ MUTANTS = [
     ("pool_stops_early", _m("pool", "if (current_use_ + edge->weight() > depth_)", "if (current_use_ + edge->weight() >= depth_)")),
     ("release_not_counted", _m("pool", "EdgeScheduled(*edge);\n    ++it;", "++it;")),
     ("finished_adds", _m("pool", "current_use_ -= edge.weight();", "current_use_ += edge.weight();")),
+    ("scheduled_twice", _m("ScheduleWork", "  if (want_e->second == kWantToFinish) {", "  if (want_e->second == kWantNothing) {")),
+    ("slot_not_returned_on_failure", _m("EdgeFinished", "  if (directly_wanted)\n    edge->pool()->EdgeFinished(*edge);\n  edge->pool()->RetrieveReadyEdges(&ready_);", "  if (directly_wanted && result == kEdgeSucceeded)\n    edge->pool()->EdgeFinished(*edge);\n  edge->pool()->RetrieveReadyEdges(&ready_);")),
+    ("token_kept_on_failure", _m("EdgeFinished", "  // Release job slot if needed.\n  if (builder_ && builder_->jobserver_.get())\n    builder_->jobserver_->Release(std::move(edge->job_slot_));\n\n  // The rest of this function only applies to successful commands.\n  if (result != kEdgeSucceeded)\n    return true;\n", "  if (result != kEdgeSucceeded)\n    return true;\n  if (builder_ && builder_->jobserver_.get())\n    builder_->jobserver_->Release(std::move(edge->job_slot_));\n")),
+    ("finite_pool_bypassed", _m("ScheduleWork", "if (pool->ShouldDelayEdge()) {", "if (false) {")),
 ]
 
 
@@ -329,7 +337,7 @@ def describe(tier):
             "Edge::weight() is the constant 1 (checked by regex on graph.h)",
             "BOUNDED: RetrieveReadyEdges for at most %d delayed edges" % max(KS[tier]),
         ],
-        "silent": ["jobserver tokens held/returned on every exit path", "each command runs at most once per invocation", "termination / never 'stuck'",
-                   "Plan::ScheduleWork/FindWork/EdgeFinished call the pool operations in the right order"],
+        "silent": ["jobserver tokens returned on ninja's exit paths (Builder cleanup), tokens acquired in FindWork", "termination / never 'stuck' as a whole-build statement",
+                   "'each command at most once' beyond the per-call clauses of ScheduleWork / EdgeFinished / AddSubTarget"],
         "explanation": "Contract harnesses on sliced CanRunMore and Pool member functions; loop-free parts are complete, RetrieveReadyEdges bounded by the number of delayed edges.",
     }
